@@ -1,4 +1,5 @@
 """C05 - reported structural annotations are true of the represented matrix (DESIGN.md section 5, C05)."""
+import warnings
 import re
 import numpy as np
 import opcases as O
@@ -272,18 +273,177 @@ def findings():
     probe("lanczos_Q_unitary", "lanczos declares its n x k basis Q Unitary (only Stiefel holds for k<n)", lanczos_q, "lanczos(SelfAdjoint(diag(1,2,3,4)), ones(4), max_iters=2)[0].annotations")
 
     def eig_tri():
-        lam, V = cola.linalg.eig(ops.Triangular(np.array([[1., 0.], [3., 2.]]), lower=True), 2)
-        D = np.asarray(V.to_dense())
-        return V.isa(cola.Unitary) and "Unitary" not in truth(D), V.annotations
-    probe("eig_triangular_unitary", "eig(Triangular) declares the (non-orthogonal) eigenvector matrix Unitary", eig_tri, "eig(Triangular([[1,0],[3,2]],lower=True),2)[1].annotations")
+        bad = []
+        for lower in (True, False):
+            Tm = np.array([[1., 0.], [3., 2.]]) if lower else np.array([[1., 3.], [0., 2.]])
+            lam, V = cola.linalg.eig(ops.Triangular(Tm, lower=lower), 2)
+            D = np.asarray(V.to_dense())
+            if (V.isa(cola.Unitary) and "Unitary" not in truth(D)) or (V.isa(cola.Stiefel) and "Stiefel" not in truth(D)):
+                bad.append(("lower" if lower else "upper", sorted(map(str, V.annotations))))
+        return bool(bad), bad
+    probe("eig_triangular_unitary", "eig(Triangular) declares the (non-orthogonal) eigenvector matrix Unitary", eig_tri, "eig(Triangular([[1,3],[0,2]],lower=False),2)[1].annotations")
+
+    def eig_slice():
+        bad = []
+        for nm, A in (("Diagonal", ops.Diagonal(np.array([1., 2., 3.]))), ("Identity", ops.Identity((3, 3), np.float64))):
+            lam, V = cola.linalg.eig(A, 2)
+            D = np.asarray(V.to_dense())
+            if V.isa(cola.Unitary) and "Unitary" not in truth(D):
+                bad.append((nm, V.shape))
+        return bool(bad), bad
+    probe("eig_structural_slice_unitary", "eig(Diagonal|Identity, k<n) declares its n x k eigenvector matrix Unitary (only Stiefel holds)", eig_slice, "eig(Diagonal([1,2,3]),2)[1].annotations")
 
     def svd_nonsq():
         from cola.linalg.svd.svd import svd
         U, Sg, V = svd(ops.Dense(np.arange(6.).reshape(3, 2) + np.eye(3, 2)), 2)
         bad = [X.shape for X in (U, V) if X.isa(cola.Unitary) and "Unitary" not in truth(np.asarray(X.to_dense()))]
         return bool(bad), bad
+    def arn_q():
+        from cola.linalg.decompositions.arnoldi import arnoldi
+        Q, H, info = arnoldi(ops.Dense(np.array([[2., 1., 0.], [0., 3., 1.], [1., 0., 4.]])), np.array([1., 2., -1.]), max_iters=3)
+        D = np.asarray(Q.to_dense())
+        return Q.isa(cola.Stiefel) and "Stiefel" not in truth_tol(D.astype(complex)), (D.shape, sorted(a.__name__ for a in Q.annotations), "last column norm %.1e" % np.linalg.norm(D[:, -1]))
+    probe("arnoldi_Q_stiefel_zero_column", "arnoldi declares its n x (m+1) basis Stiefel although the column after the Krylov space is exhausted (m = n, or a breakdown) is zero",
+          arn_q, "arnoldi(Dense([[2,1,0],[0,3,1],[1,0,4]]),[1,2,-1],max_iters=3)[0].annotations")
+
     probe("svd_factors_unitary_nonsquare", "svd declares non-square/truncated factor matrices Unitary", svd_nonsq, "svd(Dense(3x2),2) factor annotations")
     return out
+
+
+def truth_tol(D):
+    """annotations true of the float matrix D up to rounding (for outputs of numerical routines)"""
+    m, n = D.shape
+    sc = max(1.0, float(np.abs(D).max()) if D.size else 1.0)
+    out = set()
+    if m == n and np.allclose(D, D.conj().T, atol=1e-7 * sc, rtol=0):
+        out.add("SelfAdjoint")
+        if n == 0 or np.linalg.eigvalsh((D + D.conj().T) / 2).min() > -1e-7 * sc:
+            out.add("PSD")
+    if np.allclose(D.conj().T @ D, np.eye(n), atol=1e-6, rtol=0):
+        out.add("Stiefel")
+        if m == n:
+            out.add("Unitary")
+    return out
+
+
+def _ops_in(x, path=""):
+    """all LinearOperators inside a routine result (tuples / lists), with a path label"""
+    from cola.ops import LinearOperator
+    if isinstance(x, LinearOperator):
+        yield path or "out", x
+    elif isinstance(x, (tuple, list)):
+        for i, y in enumerate(x):
+            yield from _ops_in(y, f"{path}[{i}]")
+
+
+def routine_stream(ctx, present):
+    """annotations attached by library routines to their own outputs: every operator returned by lanczos / arnoldi /
+    eig / svd / matrix functions / inv / pinv / cholesky / plu on random small inputs (real and complex, full and
+    truncated k, early-terminating start vectors, structured kinds) must only report annotations that are true of its
+    dense matrix.  Regions spoiled by a recorded flag are skipped while that flag is present."""
+    import cola
+    from cola import ops
+    from cola import linalg as la
+    from cola.linalg.decompositions.lanczos import lanczos
+    from cola.linalg.decompositions.arnoldi import arnoldi
+    from cola.linalg.svd.svd import DenseSVD, svd as _svd
+    rnd = np.random.RandomState(1000 + ctx.seed)
+    mism, hist, n_calls, n_ops = [], {}, 0, 0
+
+    def herm(n, cplx, psd, repeated=False):
+        Qm, _ = np.linalg.qr(rnd.randn(n, n) + (1j * rnd.randn(n, n) if cplx else 0))
+        lam = rnd.choice([1., 2., 3.], size=n) if repeated else np.sort(rnd.uniform(0.5, 4, size=n) + np.arange(n))
+        if not psd:
+            lam = lam * rnd.choice([-1, 1], size=n)
+        return (Qm * lam) @ Qm.conj().T, Qm, lam
+
+    calls = []
+    reps = ctx.budget(6, 40)
+    for rep in range(reps):
+        cplx = bool(rep % 2)
+        n = int(rnd.randint(3, 7))
+        H, Qm, lam = herm(n, cplx, psd=True, repeated=(rep % 3 == 2))
+        Hi, _, _ = herm(n, cplx, psd=False)
+        G = rnd.randn(n, n) + (1j * rnd.randn(n, n) if cplx else 0)
+        Tall = rnd.randn(n + 2, n) + (1j * rnd.randn(n + 2, n) if cplx else 0)
+        v = rnd.randn(n) + (1j * rnd.randn(n) if cplx else 0)
+        vlow = Qm[:, :2] @ np.array([1., 2.])            # lies in a 2-dimensional invariant subspace: early termination
+        k = int(rnd.randint(1, n + 1))
+        P_, S_ = cola.PSD(ops.Dense(H)), cola.SelfAdjoint(ops.Dense(Hi))
+        for mi in sorted({2, n - 1, n, n + 3}):
+            for nm, sv in (("v", v), ("vlow", vlow)):
+                calls.append((f"lanczos(PSD n={n} cplx={cplx} max_iters={mi} start={nm})", "lanczos", lambda P_=P_, sv=sv, mi=mi: lanczos(P_, sv, max_iters=mi)[:2]))
+                calls.append((f"arnoldi(Dense n={n} cplx={cplx} max_iters={mi} start={nm})", "arnoldi", lambda G=G, sv=sv, mi=mi: arnoldi(ops.Dense(G), sv, max_iters=mi)[:2]))
+                calls.append((f"arnoldi(Dense hermitian n={n} cplx={cplx} max_iters={mi} start={nm})", "arnoldi", lambda H=H, sv=sv, mi=mi: arnoldi(ops.Dense(H), sv, max_iters=mi)[:2]))
+        for alg_nm, alg in (("Eigh", la.Eigh()), ("Lanczos", la.Lanczos(max_iters=n)), ("Auto", la.Auto())):
+            for wh in ("LM", "SM"):
+                calls.append((f"eig(SelfAdjoint n={n} cplx={cplx}, k={k}, {wh}, {alg_nm})", "eig_sa", lambda S_=S_, k=k, wh=wh, alg=alg: la.eig(S_, k, wh, alg)[1]))
+        for alg_nm, alg in (("Eig", la.Eig()), ("Arnoldi", la.Arnoldi(max_iters=n)), ("Auto", la.Auto())):
+            calls.append((f"eig(Dense n={n} cplx={cplx}, k={k}, LM, {alg_nm})", "eig_gen", lambda G=G, k=k, alg=alg: la.eig(ops.Dense(G), k, "LM", alg)[1]))
+        Tu = np.triu(G) + np.diag(np.arange(1, n + 1) * 3.0)
+        calls.append((f"eig(Triangular upper n={n} cplx={cplx}, k={k})", "eig_tri", lambda Tu=Tu, k=k: la.eig(ops.Triangular(Tu, lower=False), k, "LM")[1]))
+        calls.append((f"eig(Triangular lower n={n} cplx={cplx}, k={k})", "eig_tri", lambda Tu=Tu, k=k: la.eig(ops.Triangular(Tu.T.copy(), lower=True), k, "LM")[1]))
+        dg = rnd.randn(n) + (1j * rnd.randn(n) if cplx else 0)
+        calls.append((f"eig(Diagonal n={n} cplx={cplx}, k={k})", "eig_struct" if k < n else "eig_struct_full", lambda dg=dg, k=k: la.eig(ops.Diagonal(dg), k, "LM")[1]))
+        calls.append((f"eig(Identity n={n}, k={k})", "eig_struct" if k < n else "eig_struct_full", lambda n=n, k=k, cplx=cplx: la.eig(ops.Identity((n, n), np.complex128 if cplx else np.float64), k, "LM")[1]))
+        for shape_nm, M in (("square", G), ("tall", Tall), ("wide", Tall.conj().T.copy())):
+            kk = int(rnd.randint(1, min(M.shape) + 1))
+            for alg_nm, alg in (("DenseSVD", DenseSVD()), ("Auto", la.Auto()), ("Lanczos", la.Lanczos(max_iters=min(M.shape)))):
+                calls.append((f"svd(Dense {shape_nm} {M.shape} cplx={cplx}, k={kk}, {alg_nm})", "svd", lambda M=M, kk=kk, alg=alg: _svd(ops.Dense(M), kk, "LM", alg)))
+        calls.append((f"svd(Diagonal n={n} cplx={cplx}, k={k})", "svd", lambda dg=dg, k=k: _svd(ops.Diagonal(dg), k)))
+        calls.append((f"svd(Identity n={n}, k={k})", "svd", lambda n=n, k=k: _svd(ops.Identity((n, n), np.float64), k)))
+        for fn_nm, fn in (("exp", la.exp), ("sqrt", la.sqrt), ("log", la.log), ("isqrt", la.isqrt)):
+            for alg_nm, alg in (("Auto", la.Auto()), ("Eigh", la.Eigh()), ("Lanczos", la.Lanczos(max_iters=n)), ("Eig", la.Eig()), ("Arnoldi", la.Arnoldi(max_iters=n))):
+                calls.append((f"{fn_nm}(PSD n={n} cplx={cplx}, {alg_nm})", "unary", lambda fn=fn, P_=P_, alg=alg: fn(P_, alg)))
+            calls.append((f"{fn_nm}(Diagonal PSD)", "unary", lambda fn=fn, lam=lam: fn(cola.PSD(ops.Diagonal(np.abs(lam) + 0.5)), la.Auto())))
+        calls.append((f"pow(PSD n={n} cplx={cplx}, 3)", "unary", lambda P_=P_: la.pow(P_, 3)))
+        calls.append((f"exp(SelfAdjoint indefinite n={n} cplx={cplx}, Eigh)", "unary", lambda S_=S_: la.exp(S_, la.Eigh())))
+        calls.append((f"exp(SelfAdjoint indefinite n={n} cplx={cplx}, Lanczos)", "unary", lambda S_=S_, n=n: la.exp(S_, la.Lanczos(max_iters=n))))
+        for alg_nm, alg in (("Auto", la.Auto()), ("Cholesky", la.Cholesky()), ("LU", la.LU()), ("CG", la.CG(tol=1e-10)), ("GMRES", la.GMRES(max_iters=n))):
+            calls.append((f"inv(PSD n={n} cplx={cplx}, {alg_nm})", "inv", lambda P_=P_, alg=alg: la.inv(P_, alg)))
+        calls.append((f"inv(Unitary n={n} cplx={cplx})", "inv", lambda Qm=Qm: la.inv(cola.Unitary(ops.Dense(Qm)))))
+        calls.append((f"inv(Kronecker(PSD,PSD) n={n})", "inv", lambda P_=P_: la.inv(ops.Kronecker(P_, P_))))
+        calls.append((f"pinv(Dense tall cplx={cplx})", "pinv", lambda Tall=Tall: la.pinv(ops.Dense(Tall))))
+        calls.append((f"cholesky(PSD n={n} cplx={cplx})", "chol", lambda P_=P_: la.cholesky(P_)))
+        calls.append((f"plu(Dense n={n} cplx={cplx})", "plu", lambda G=G: la.plu(ops.Dense(G))))
+        calls.append((f"cholesky(Kronecker(PSD,PSD))", "chol", lambda P_=P_: la.cholesky(ops.Kronecker(P_, P_))))
+    skip_region = {"svd": "svd_factors_unitary_nonsquare", "eig_tri": "eig_triangular_unitary", "eig_struct": "eig_structural_slice_unitary"}
+    for label, region, fn in calls:
+        if skip_region.get(region) in present:
+            hist["skipped:" + region] = hist.get("skipped:" + region, 0) + 1
+            continue
+        try:
+            with warnings.catch_warnings():
+                warnings.simplefilter("ignore")
+                res = fn()
+        except Exception:
+            hist["raised:" + region] = hist.get("raised:" + region, 0) + 1
+            continue       # errors of the routines themselves belong to other properties
+        n_calls += 1
+        hist[region] = hist.get(region, 0) + 1
+        for path, A in _ops_in(res):
+            if not A.annotations:
+                continue
+            try:
+                with warnings.catch_warnings():
+                    warnings.simplefilter("ignore")
+                    D = np.asarray(A.to_dense())
+            except Exception:
+                continue
+            if D.ndim != 2 or not np.all(np.isfinite(D)):
+                continue
+            n_ops += 1
+            tr = truth_tol(D.astype(complex))
+            bad = sorted(a.__name__ for a in A.annotations if a.__name__ not in tr)
+            if bad == ["Stiefel"] and region == "arnoldi" and "arnoldi_Q_stiefel_zero_column" in present:
+                nz = np.abs(D).max(axis=0) > 0          # recorded finding: exactly-zero columns after the Krylov space is exhausted
+                if not nz.all() and "Stiefel" in truth_tol(D[:, nz].astype(complex)):
+                    hist["attributed:arnoldi_zero_column"] = hist.get("attributed:arnoldi_zero_column", 0) + 1
+                    bad = []
+            if bad:
+                mism.append(dict(oracle_fail=True, case=label + " -> " + path, got=sorted(a.__name__ for a in A.annotations), shape=list(D.shape),
+                                 failed_clauses=["routine output reports " + ",".join(bad) + " which is not true of its dense matrix"]))
+    return n_calls, n_ops, mism, hist
 
 
 def run(ctx):
@@ -372,6 +532,8 @@ def run(ctx):
                     attributed += 1
         if bad or id(c) in fs:
             mism.append(dict(oracle_fail=bool(bad), case=c["an"], got=c["got"], failed_clauses=bad, model_disagrees=(id(c) in fs)))
+    r_calls, r_ops, r_mism, r_hist = routine_stream(ctx, present)
+    mism += r_mism
     kinds = {}
     for c in cases:
         for w in re.findall(r"'x': '(\w+)'", str(c["an"])):
@@ -382,4 +544,5 @@ def run(ctx):
              "A^H A / A^T A patterns with the same object, scalar multiples, equal/unequal slices; non-trivial = composite; distinct by hash" % ctx.budget(3, 4),
         samples=[cases[0]["an"], cases[1]["an"]], mismatches=mism, findings=fnd,
         extra=dict(node_histogram=kinds, reported_annotation_counts={a: sum(1 for c in okc if a in c["got"]) for a in NAMES},
-                   untrue_reports_attributed_to_recorded_flags=attributed, flags_vector=fl))
+                   untrue_reports_attributed_to_recorded_flags=attributed, flags_vector=fl,
+                   routine_outputs=dict(calls=r_calls, annotated_outputs_checked=r_ops, histogram=r_hist)))
